@@ -193,15 +193,17 @@ def output_cases(run, outdir, gtf_in, report_all):
 
 
 PRE_OUT_TAIL = """Definition dflt := mkO [] [] [] false.
-Definition T := (nat * omodel * list omodel)%type.
+(* (context index, model, the other novel models of the chromosome each with the replayed assigner verdicts (m matches it, it matches m)) *)
+Definition T := (nat * omodel * list (omodel * option (bool * bool)))%type.
 Definition ctx_of (c : T) := nth (fst (fst c)) ctxs dflt.
+Definition others (c : T) := map fst (snd c).
 Definition check (c : T) : bool := true.
 """
-PROP_FULL = "Definition prop (c : T) : bool := novel_ok (ctx_of c) (snd (fst c)) (snd c).\n"
+PROP_FULL = "Definition prop (c : T) : bool := novel_ok (ctx_of c) (snd (fst c)) (others c).\n"
 # classification of violations (decided in Coq): which clause fails, and whether the structural description of the known deviations applies
 PROP_BUT_DISTINCT = "Definition prop (c : T) : bool := let m := snd (fst c) in let k := ctx_of c in cl_support k m && cl_reads m && cl_strand m && cl_suffix k m && cl_not_reference k m && cl_annotation_free k m.\n"
-PROP_BUT_STRAND = "Definition prop (c : T) : bool := let m := snd (fst c) in let k := ctx_of c in cl_support k m && cl_reads m && cl_suffix k m && cl_not_reference k m && cl_distinct m (snd c) && cl_annotation_free k m.\n"
-PROP_ALT_END = "Definition prop (c : T) : bool := alt_end_duplicates (snd (fst c)) (snd c).\n"
+PROP_BUT_STRAND = "Definition prop (c : T) : bool := let m := snd (fst c) in let k := ctx_of c in cl_support k m && cl_reads m && cl_suffix k m && cl_not_reference k m && cl_distinct m (others c) && cl_annotation_free k m.\n"
+PROP_ALT_END = "Definition prop (c : T) : bool := duplicates_left_by_design (snd (fst c)) (snd c).\n"
 PROP_DOT = "Definition prop (c : T) : bool := om_strand (snd (fst c)) =? 2.\n"
 
 
@@ -273,6 +275,21 @@ def alt_end_world():
     for i in range(6): w.add_read("triB_%d" % i, c, t2, "+")
     return w
 
+def collapsed_ends_world():
+    """the counterpart of alt_end_world for longer chains: inside an annotated gene a novel four-exon chain is expressed with two well supported polyA
+    sites 600 bp apart (10 polyA-tailed reads each); detect_similar_isoforms compares the two candidates (same exon count) and keeps ONE"""
+    from gen_data import World
+    w = World(13, n_chr=1, chr_len=(30000, 30000), genes_per_chr=(0, 0))
+    c = "chrA"; s = list(w.chroms[c]); w.chroms[c] = s
+    pool = [(5001, 5200), (5501, 5700), (5901, 6000), (6301, 6500)]
+    g = dict(id="chrA_G1", chr=c, strand="+", pool=pool, isoforms={"chrA_G1.T0": [0, 1, 3]}, start=5001, end=6500)
+    short = list(pool); long_ = pool[:3] + [(6301, 7100)]
+    w.plant([pool[0], pool[1], pool[3]], c, "+"); w.plant(short, c, "+"); w.chroms[c] = "".join(s); w.genes.append(g)
+    for i in range(10): w.add_read("pA6500_%d" % i, c, short, "+")
+    for i in range(10): w.add_read("pA7100_%d" % i, c, long_, "+")
+    for i in range(5): w.add_read("t0_%d" % i, c, [pool[0], pool[1], pool[3]], "+")
+    return w
+
 def dot_strand_world():
     """finding #13b: unannotated three-exon reads over non-canonical splice sites, without polyA tails"""
     from gen_data import World
@@ -332,6 +349,10 @@ def run_pipeline(ctx, quick, only=None):
         w = alt_end_world(); wd = os.path.join(d, "altend"); paths = w.write(wd)
         job("corpus_alt_ends", dict(bams=paths, fasta=os.path.join(wd, "genome.fa"), gtf=None, label="c04.alt_end_world(): two read groups with one intron chain and polyA sites 400 bp apart (two-exon and three-exon locus)"),
             False, ["--data_type", "nanopore", "-t", "1"])
+        w = collapsed_ends_world(); wd = os.path.join(d, "collapsed"); paths = w.write(wd)
+        job("corpus_collapsed_ends", dict(bams=paths, fasta=os.path.join(wd, "genome.fa"), gtf=os.path.join(wd, "annotation.gtf"),
+                                          label="c04.collapsed_ends_world(): novel four-exon chain in gene chrA_G1 with two polyA sites 600 bp apart, 10 reads each: the two candidates must be collapsed into one model"),
+            True, ["--data_type", "nanopore", "-t", "1"])
         w = dot_strand_world(); wd = os.path.join(d, "dotstrand"); paths = w.write(wd)
         dinp = dict(bams=paths, fasta=os.path.join(wd, "genome.fa"), gtf=None, label="c04.dot_strand_world(): unannotated three-exon reads over non-canonical splice sites without polyA tails")
         job("corpus_dot_strand", dinp, False, ["--data_type", "nanopore", "--report_canonical", "all", "--polya_requirement", "never", "-t", "1"])
@@ -365,16 +386,24 @@ def analyse(ctx, results, quick):
             stats["regions"] += 1
             if rec.get("late_ops"): stats["regions_with_mutations_after_graph_construction"] += 1
             if (rec.get("fl") or {}).get("params", {}).get("report") == "all": stats["regions_report_all"] += 1
+        verdicts = {}
+        for rec in r["recs"]:
+            for e in rec.get("dup_oracle") or []: verdicts[(e[0], e[1])] = e[2]
         o, _ = output_cases(r, r["out"], r["gtf"], report_all)
         if o is None:
             ctx.violation(None, "transcript_models.gtf / transcript_model_reads.tsv / corrected_reads.bed missing", replay); continue
         for c in o["chroms"]:
             cterm = "(mkO %s %s %s %s)" % (civs_(sorted(o["bed_introns"][c])), civs_(sorted(o["ref_introns"][c])), cchains(sorted(o["ref_chains"][c])), cbool(o["annotation_free"]))
             ms = [m for m in o["novel"].values() if m["chr"] == c]
-            gcases.append(("(%s, %s)" % (cterm, clist(ms, comodel)), dict(replay, chr=c, n_models=len(ms), n_spliced=sum(1 for m in ms if len(m["exons"]) > 1), report_all=o["report_all"], _ctx=cterm, _models=ms)))
+            gcases.append(("(%s, %s)" % (cterm, clist(ms, comodel)), dict(replay, chr=c, n_models=len(ms), n_spliced=sum(1 for m in ms if len(m["exons"]) > 1), report_all=o["report_all"], _ctx=cterm, _models=ms,
+                                                                         _verdicts=verdicts)))
         tc = Codes()
         tcases.append(("(%s, %s)" % (czs([-1 if t == "*" else tc(t) for t in o["table"]]), czs([tc(t) for t in o["gtf_tids"]])),
                        dict(replay, not_in_gtf=[t for t in o["table"] if t != "*" and t not in set(o["gtf_tids"])][:5], n_table=len(o["table"]), n_gtf=len(o["gtf_tids"]))))
+        if r["name"] == "corpus_collapsed_ends":
+            chains = [tuple((a[1] + 1, b[0] - 1) for a, b in zip(m["exons"], m["exons"][1:])) for m in o["novel"].values()]
+            if (5701, 5900) not in [i for ch in chains for i in ch]: ctx.broken("corpus:collapsed_ends", "the novel four-exon chain of collapsed_ends_world() is not reported at all: the scenario is not exercised")
+            stats["collapsed_ends_world_novel_models"] += len(o["novel"])
         stats["novel_models"] += len(o["novel"]); stats["known_models"] += o["n_known"]
         stats["spliced_novel_models"] += sum(1 for m in o["novel"].values() if len(m["exons"]) > 1)
         if o["annotation_free"]: stats["annotation_free_runs"] += 1
@@ -395,15 +424,19 @@ def analyse(ctx, results, quick):
     _, gviol = ctx.corr("pipeline:novel_ok", PRE_GROUP, gcases, shard=4, ctype="T", nontrivial=lambda o: o["n_spliced"] > 0)
     octxs = []; mcases = []
     for g in gviol:
-        k = len(octxs); octxs.append(g["_ctx"]); ms = g["_models"]
+        k = len(octxs); octxs.append(g["_ctx"]); ms = g["_models"]; vd = g["_verdicts"]
+        def cverdict(m, x):
+            a = vd.get((m["tid"], x["tid"])); b = vd.get((x["tid"], m["tid"]))
+            return "None" if a is None or b is None else "(Some (%s, %s))" % (cbool(a), cbool(b))
         for m in ms:
             others = [x for x in ms if x is not m]
-            term = "(%s, %s, %s)" % (cnat(k), comodel(m), clist(others, comodel))
+            term = "(%s, %s, %s)" % (cnat(k), comodel(m), clist(others, lambda x: "(%s, %s)" % (comodel(x), cverdict(m, x))))
             dups = [x["tid"] for x in others if x["strand"] == m["strand"] and len(m["exons"]) > 1 and
                     [(a[1], b[0]) for a, b in zip(x["exons"], x["exons"][1:])] == [(a[1], b[0]) for a, b in zip(m["exons"], m["exons"][1:])]]
             mcases.append((term, dict({k_: v for k_, v in g.items() if not k_.startswith("_") and k_ not in ("n_models", "n_spliced")}, transcript=m["tid"], strand=m["strand"], gene=m["gene"], exons=m["exons"],
-                                      rows=m["rows"], same_chain_as=dups)))
-    for _, o in gcases: o.pop("_ctx", None); o.pop("_models", None)
+                                      rows=m["rows"], same_chain_as=dups, n_exons=len(m["exons"]),
+                                      assigner_verdicts={x: dict(this_matches_it=vd.get((m["tid"], x)), it_matches_this=vd.get((x, m["tid"]))) for x in dups})))
+    for _, o in gcases: o.pop("_ctx", None); o.pop("_models", None); o.pop("_verdicts", None)
     keys = {}; viol = []
     if mcases:
         head = PRE + "Definition ctxs : list octx := [\n" + ";\n".join(octxs) + "].\n" + PRE_OUT_TAIL
@@ -415,7 +448,8 @@ def analyse(ctx, results, quick):
         but_distinct = fails(PROP_BUT_DISTINCT); but_strand = fails(PROP_BUT_STRAND); not_alt = fails(PROP_ALT_END); not_dot = fails(PROP_DOT)
         for o in viol:
             k = None
-            # only the pairwise-distinct clause fails, and every duplicate differs in a terminal coordinate or the models have <= 2 exons
+            # only the pairwise-distinct clause fails, and every duplicate is one the algorithm is specified to leave: <= 2 exons (never compared), or a longer
+            # pair for which the assigner of the tree under test, replayed on the pair in both directions, gives no matching assignment
             if id(o) not in but_distinct and id(o) not in not_alt: k = KEY_DUP
             # only the strand clause fails, the strand is '.', and the run reports all strands
             elif id(o) not in but_strand and id(o) not in not_dot and o["report_all"]: k = KEY_DOT
@@ -755,10 +789,15 @@ def run_similar_unit(ctx, quick):
 Definition oracle (l : list (Z * Z)) (m big : nmodel) : bool := existsb (fun e => (fst e =? m_id m) && (snd e =? m_id big)) l.
 Definition check (c : T) : bool := let '(ms, o, out) := c in
   let r := detect_similar (oracle o) ms in forallb (fun x => zmem x out) r && forallb (fun x => zmem x r) out.
-(* whoever is absorbed is a novel model with introns, absorbed by a model of more than two exons and at least as many exons *)
+(* whoever is absorbed is a novel model with introns, absorbed by a model of more than two exons and at least as many exons;
+   and no comparable pair that the assigner matches survives as a pair: for a novel m with introns and a different model big of more than two
+   exons and at least as many exons (EQUAL counts included - alternative ends of one chain) with a matching assignment, m or big is absorbed *)
+Definition comparable (m big : nmodel) : bool :=
+  negb (m_known m) && negb (m_id m =? m_id big) && negb (m_nexons m =? 1) && negb (is_nil (m_chain m)) && (m_nexons m <=? m_nexons big) && (2 <? m_nexons big).
 Definition prop (c : T) : bool := let '(ms, o, out) := c in
   forallb (fun x => existsb (fun m => (m_id m =? x) && negb (m_known m) && negb (is_nil (m_chain m)) &&
-                                       existsb (fun big => (2 <? m_nexons big) && (m_nexons m <=? m_nexons big) && negb (m_id big =? x)) ms) ms) out.
+                                       existsb (fun big => (2 <? m_nexons big) && (m_nexons m <=? m_nexons big) && negb (m_id big =? x)) ms) ms) out &&
+  forallb (fun big => forallb (fun m => negb (comparable m big && oracle o m big) || zmem (m_id m) out || zmem (m_id big) out) ms) ms.
 """
     ctx.rule("detect_similar_isoforms (REAL loop; GeneInfo.from_models / LongReadAssigner / CombinedProfileConstructor / is_matching_assignment replaced by an oracle table): every pair of model kinds "
              "(known/novel x 1-4 exons x with/without intron path) x every oracle, random triples; non-trivial = some model is absorbed")
@@ -780,14 +819,14 @@ def run(ctx, only=None):
     ctx.rule("pipeline: isoquant.py under harness/c04_wrapper.py (logging containers + bracketed mutators, behaviour unchanged) on the bundled chr9 data with each of the 8 --model_construction_strategy presets, "
              "without --genedb (default and `all` + --report_novel_unspliced), with --report_canonical all (with and without polyA requirement); on generated worlds (c04.make_world: gen_data.World with known / "
              "truncated / jittered reads, unannotated exon-skipping chains, alternative 3' ends, bulges, tips, an unannotated locus) with default_ont + 2 sampled presets (thorough: all 8), without --genedb, with "
-             "--report_canonical all with and without --genedb, 1-3 threads; and on the two corpus worlds reproducing the by-design deviations. Per processed region Coq checks that the logged mutator sequence "
+             "--report_canonical all with and without --genedb, 1-3 threads; on the two corpus worlds reproducing the by-design deviations, and on collapsed_ends_world (a four-exon novel chain with two polyA sites 600 bp apart that must come out as ONE model). Per processed region Coq checks that the logged mutator sequence "
              "is a run of the abstract system from the collected read introns (every precondition, five snapshots, final vertex set / map / discarded set), that known_isoforms_in_graph and the intron part of every "
              "full-length path are the threaded images computed by the model, that every decision of construct_fl_isoforms is the one of `decide`, and that the logged store operations are a run of the store system "
              "ending in the logged read table. Per run and chromosome Coq evaluates novel_ok (Appendix E) on transcript_models.gtf, transcript_model_reads.tsv, corrected_reads.bed and the input GTF; non-trivial = "
              "a region with a substitution / collapse / discard, a region emitting a novel model, a chromosome with a spliced novel model")
     ctx.notes.append("decided inside Coq: validity of every logged step (preconditions), agreement of snapshots, threading, known paths, decisions (strand, gene, nic), store runs and the read table, every clause of "
-                     "novel_ok including which clause fails and whether a failing duplicate / strand matches the structural description of the two by-design findings (alt_end_duplicates: every same-strand duplicate "
-                     "of the chain differs in a terminal coordinate or the model has <= 2 exons; strand '.' with only the strand clause failing) - the run-level fact `--report_canonical all` comes from the command line. "
+                     "novel_ok including which clause fails and whether a failing duplicate / strand matches the structural description of the two by-design findings (duplicates_left_by_design: the model has <= 2 exons, or for every same-strand duplicate "
+                     "of the chain the assigner of the tree under test, replayed by the wrapper on the pair in both directions as detect_similar_isoforms calls it, gives no matching assignment; strand '.' with only the strand clause failing) - the run-level fact `--report_canonical all` comes from the command line. "
                      "Python side (adapters): parsing GTF / BED / TSV, interning ids, joining a model with its chromosome's lists, grouping trace records, gene ids numbered in string order.")
     ctx.assume.append("harness/c04_wrapper.py logs every mutation: the three collector containers and the two edge dictionaries are replaced by logging subclasses of the same built-in types (any mutation outside a known "
                       "mutator becomes a `Raw` step that the abstract system rejects; mutations of the edge SETS are attributed to add_edge / collapse_vertex / attach_transcpt_ends and checked by the snapshots only)")
